@@ -6,8 +6,9 @@
 (*          "comment" (a silent comment line between all lines) |             *)
 (*          "spaces" (trailing spaces / tabs at the end of every line)        *)
 (*   prefix "none" | "bom" (U+FEFF first) | "charset" (@charset "UTF-8" first) *)
-(*   swap   TRUE: every second occurrence of a user-chosen name is spelled     *)
-(*          with "_" where the others use "-"                                  *)
+(*   swap   "mid": every second occurrence of a user-chosen name is spelled    *)
+(*          with "_" where the others use "-" inside the name; "lead": the     *)
+(*          same with the "-"/"_" as the first character of variable names     *)
 (* Agree: all variants of one program produce the same CSS and the same        *)
 (* logger messages, or all of them fail.                                       *)
 EXTENDS Naturals, Sequences, TLC, Json
@@ -17,9 +18,9 @@ Nls == {"lf", "crlf", "cr", "ff", "mixed"}      \* mixed: LF after the first lin
 Pads == {"none", "blank", "wsblank", "comment", "spaces"}   \* wsblank: the blank lines contain spaces and a tab
 Prefixes == {"none", "bom", "charset"}
 
-Init == stage = 0 /\ d = [nl |-> "lf", pad |-> "none", prefix |-> "none", swap |-> FALSE]
+Init == stage = 0 /\ d = [nl |-> "lf", pad |-> "none", prefix |-> "none", swap |-> "none"]
 Pick == /\ stage = 0 /\ stage' = 1
-        /\ \E n \in Nls, p \in Pads, x \in Prefixes, s \in BOOLEAN : d' = [nl |-> n, pad |-> p, prefix |-> x, swap |-> s]
+        /\ \E n \in Nls, p \in Pads, x \in Prefixes, s \in {"none", "mid", "lead"} : d' = [nl |-> n, pad |-> p, prefix |-> x, swap |-> s]
 Spec == Init /\ [][Pick]_<<stage, d>>
 Emit == stage = 1 => PrintT(<<"CASE", ToJson(d)>>)
 =============================================================================
